@@ -168,7 +168,9 @@ func (rd *ReorgDetector) detectReorgInTrackedList(ctx context.Context) error {
 		errGroup errgroup.Group
 	)
 
-	subscriberIDs := verifSubscriberOrder(rd.getSubscriberIDs())
+	subscriberIDs := rd.getSubscriberIDs()
+	subscriberIDs = verifSubscriberOrder(subscriberIDs)
+	verifOneAtATime(&errGroup)
 	startTime := time.Now()
 	for _, id := range subscriberIDs {
 		id := id
@@ -185,7 +187,7 @@ func (rd *ReorgDetector) detectReorgInTrackedList(ctx context.Context) error {
 
 		rd.log.Debugf("Checking reorgs in tracked blocks up to block %d", lastFinalisedBlock.Number.Uint64())
 
-		verifGo(&errGroup, func() error {
+		errGroup.Go(func() error {
 			headers := hdrs.getSorted()
 			for _, hdr := range headers {
 				// Get the actual header from the network or from the cache
